@@ -98,6 +98,10 @@ func GenBytes(t *rapid.T) string {
 // GenOp draws one operation admitted by kind k; delPct is the percentage of delete_prefix.
 func GenOp(t *rapid.T, k Kind, maxOrd uint64, delPct int) Op {
 	ord := rapid.Uint64Range(0, maxOrd).Draw(t, "ord")
+	if rapid.IntRange(0, 19).Draw(t, "farord") == 0 {
+		// ordinals are any uint64: far apart ones (differences above 2^63 wrap around in a subtraction)
+		ord = rapid.SampledFrom([]uint64{1 << 32, 1<<63 - 1, 1 << 63, 1<<63 + 7, ^uint64(0) - 1, ^uint64(0)}).Draw(t, "farordv")
+	}
 	if rapid.IntRange(0, 99).Draw(t, "isdel") < delPct {
 		return Op{Ord: ord, Key: Bin(rapid.SampledFrom(Prefixes).Draw(t, "prefix")), Del: true}
 	}
